@@ -308,6 +308,56 @@ fn beyond_i64(ctx: &Ctx) {
     ctx.put("beyond_i64_literal_builds", json!(n));
 }
 
+/// Labels are numbers like any other: the position of a label that does not fit the element fails the build,
+/// one that fits is stored - a bare name, a name in an expression, in every segment, with and without a device.
+fn label_values(ctx: &Ctx) {
+    let mut n = 0u64;
+    for dev in ["", ".device ATmega2560\n", ".device ATmega128\n"] {
+        for (org, seg_open, def, seg_close) in [
+            (0x10000i64, "", "far:\tnop\n", ""),
+            (0xffff, "", "far:\tnop\n", ""),
+            (0x1f000, "", "far:\tnop\n", ""),
+            (0x100, "", "far:\tnop\n", ""),
+            (0xff, "", "far:\tnop\n", ""),
+            (0x300, ".dseg\n", "far:\t.byte 1\n", ".cseg\n"),
+            (0x100, ".eseg\n", "far:\t.db 1\n", ".cseg\n"),
+            (0xff, ".eseg\n", "far:\t.db 1\n", ".cseg\n"),
+        ] {
+            if dev.contains("ATmega128\n") && org >= 0xffff {
+                continue;
+            }
+            for (dir, width) in [(".db", 1u32), (".dw", 2), (".dd", 4)] {
+                for (how, operand, value) in [("bare", "far".to_string(), org), ("other-case", "FAR".to_string(), org), ("in-sum", "far + 0".to_string(), org), ("in-parentheses", "(Far)".to_string(), org), ("minus-one", "far - 1".to_string(), org - 1)] {
+                    for forward in [false, true] {
+                        let place = format!("{}.org 0x{:x}\n{}{}", seg_open, org, def, seg_close);
+                        let table = format!("table:\t{} {}{}\n", dir, operand, if width == 1 { ", 0" } else { "" });
+                        let src = if forward { format!("{}{}{}", dev, table, place) } else { format!("{}{}.org 0x{:x}\n{}", dev, place, org + 0x10, table) };
+                        let fits = value >= 0 && (value as u64) < (1u64 << (8 * width));
+                        let out = fw::build_str(&src);
+                        ctx.eval(1);
+                        n += 1;
+                        let at = if forward { 0 } else { (org + 0x10) as usize * 2 };
+                        let ok = match &out {
+                            Outcome::Panic(_) => false,
+                            Outcome::Err(_) => !fits,
+                            Outcome::Ok(o) => fits && o.code.get(at..at + width as usize).map(|b| b.iter().enumerate().all(|(i, x)| *x == (value >> (8 * i)) as u8)).unwrap_or(false),
+                        };
+                        // (in the forward variant the table stands at 0 and a code label at `org` lies behind it)
+                        if !ok {
+                            ctx.violation(
+                                format!("data/{}/{}/label-value/{}", if fits { "fitting-values-rejected-or-wrong" } else { "out-of-range-accepted" }, dir.trim_start_matches('.'), how),
+                                format!("`{} {}` with far = 0x{:x} ({}): {}", dir, operand, org, if fits { "fits" } else { "does not fit" }, fw::clip(&format!("{:?}", out.brief()), 120)),
+                                json!({"source": src, "label_value": true, "fits": fits, "at": at, "width": width, "value": value, "observed": out.brief()}),
+                            );
+                        }
+                    }
+                }
+            }
+        }
+    }
+    ctx.put("label_value_builds", json!(n));
+}
+
 /// Data lines inside macros that take arguments: the argument text is spliced into the line and the line is
 /// read again, which must leave the strings on that line byte for byte as written.
 fn through_macro_arguments(ctx: &Ctx) {
@@ -364,6 +414,7 @@ fn through_macro_arguments(ctx: &Ctx) {
 pub fn run(ctx: &Ctx) -> i32 {
     grid(ctx);
     beyond_i64(ctx);
+    label_values(ctx);
     through_macro_arguments(ctx);
     let n = ctx.tier.pick(5_000u64, 5_000_000u64);
     fw::par_for(n, 64, |i| {
@@ -380,7 +431,7 @@ pub fn run(ctx: &Ctx) -> i32 {
     });
     fw::finish(
         ctx,
-        "programs of 1-10 .db/.dw/.dd/.dq lines in flash and EEPROM, 0-12 operands each mixing boundary literals, computed values, .equ symbols, random expressions and strings (empty, punctuation that looks like comments, non-ASCII UTF-8), `.byte n` between EEPROM data; one in three programs carries exactly one fault (value that does not fit its width, string in a word directive, data directive in .dseg); plus the complete width x boundary-value grid in both segments; every second valid program again with runs of its lines moved into argument-less macros (same images required); 360 must-fail builds with literals of 2^63 and more in every radix reaching .db/.dw/.dd directly, through .equ, through a macro argument and inside an expression; 600 (thorough 20000) .db lines with hostile strings (multi-byte characters, backslash sequences, colons, comment openers) inside macros that take arguments, against the same line written directly and the bytes computed by hand; every valid program once more in one randomly chosen setting that means nothing (as a file beginning with blank lines / CRLF / no final line end; a run of top-level lines in an included file; inside a selected branch; followed by .exit and unread text; preceded by unused definitions; respelled; branch and included file at once) with the same images, sizes, RAM extent and message texts required (props/variants.rs; counters variants:*); distinct_nontrivial = distinct program texts",
+        "programs of 1-10 .db/.dw/.dd/.dq lines in flash and EEPROM, 0-12 operands each mixing boundary literals, computed values, .equ symbols, random expressions and strings (empty, punctuation that looks like comments, non-ASCII UTF-8), `.byte n` between EEPROM data; one in three programs carries exactly one fault (value that does not fit its width, string in a word directive, data directive in .dseg); plus the complete width x boundary-value grid in both segments; every second valid program again with runs of its lines moved into argument-less macros (same images required); the positions of code, data and EEPROM labels around 0xff/0x100, 0xffff/0x10000 and at 0x1f000 as operands of .db/.dw/.dd (bare name, other letter case, in a sum, in parentheses, minus one; table before and behind the label; no device, ATmega2560, ATmega128): stored when they fit, an error when not; 360 must-fail builds with literals of 2^63 and more in every radix reaching .db/.dw/.dd directly, through .equ, through a macro argument and inside an expression; 600 (thorough 20000) .db lines with hostile strings (multi-byte characters, backslash sequences, colons, comment openers) inside macros that take arguments, against the same line written directly and the bytes computed by hand; every valid program once more in one randomly chosen setting that means nothing (as a file beginning with blank lines / CRLF / no final line end; a run of top-level lines in an included file; inside a selected branch; followed by .exit and unread text; preceded by unused definitions; respelled; branch and included file at once) with the same images, sizes, RAM extent and message texts required (props/variants.rs; counters variants:*); distinct_nontrivial = distinct program texts",
         &["refmodel/layout.rs data rules; fits = signed or unsigned representation of the width"],
     )
 }
@@ -388,6 +439,22 @@ pub fn run(ctx: &Ctx) -> i32 {
 pub fn replay(ctx: &Ctx, case: &Value) -> i32 {
     if case.get("variant").is_some() {
         return crate::props::variants::replay(ctx, case);
+    }
+    if case["label_value"].as_bool() == Some(true) {
+        let out = fw::build_str(case["source"].as_str().unwrap_or(""));
+        ctx.eval(1);
+        ctx.distinct(1);
+        ctx.distinct(2);
+        let (fits, at, width, value) = (case["fits"].as_bool().unwrap_or(false), case["at"].as_u64().unwrap_or(0) as usize, case["width"].as_u64().unwrap_or(1) as usize, case["value"].as_i64().unwrap_or(0));
+        let ok = match &out {
+            Outcome::Panic(_) => false,
+            Outcome::Err(_) => !fits,
+            Outcome::Ok(o) => fits && o.code.get(at..at + width).map(|b| b.iter().enumerate().all(|(i, x)| *x == (value >> (8 * i)) as u8)).unwrap_or(false),
+        };
+        if !ok {
+            ctx.violation("data/replay", "replayed case still deviates", case.clone());
+        }
+        return fw::finish(ctx, "replay", &[]);
     }
     if case["beyond_i64"].as_bool() == Some(true) || case["macro_arguments"].as_bool() == Some(true) {
         let out = fw::build_str(case["source"].as_str().unwrap_or(""));
